@@ -16,7 +16,7 @@ import time
 from concurrent.futures import ThreadPoolExecutor
 
 from .. import vlib, runner
-from ..vlib import tobytes, ToolError, WIDTHS, pairs, boundary_values, rand_value, nlimbs
+from ..vlib import tobytes, ToolError, WIDTHS, pairs, boundary_values, rand_value, nlimbs, limb_pattern_pairs
 from . import C07
 
 RULE = ("(B1) every transition of UintMachine (46 operations x all register values x all immediates) at widths 0..3 (quick) / "
@@ -173,6 +173,7 @@ def event_scenarios(tier, rng):
                 ps += [(a, b), (b, a), (a, a)]
             ps += [(rng.choice(bv), rng.choice(bv)) for _ in range(20 if quick else 200)]
             ps += [(0, mx), (mx, 0), (mx, mx), (0, 0), (mx - 1, mx), (1, 1 << (bits - 1))]
+            ps += limb_pattern_pairs(bits, rng, 27 if quick else 150)
             if bits > 1100:
                 ps = ps[:20]
         for a, b in dict.fromkeys(ps):
@@ -231,6 +232,8 @@ def main(tier, seed, replay, t0):
                 res.violations.append((ev, ["got"], sorted(t.keys())))
     res.states += st["distinct"]
     res.transitions += len(trans)
+    # distinct non-trivial machine cases: transitions with a non-zero operand (each emitted transition is distinct)
+    res.extra["_extra_distinct"] = sum(1 for t in trans if t["a"] or t["b"] or t["m"] or t["k"])
     extra["machine_exhaustive"] = {"tlc_states": st["distinct"], "transitions_replayed": len(trans), "mismatches": nbad,
                                    "per_action": per_op, "invariants": ["Canonical", "NativeOK", "TypeOK"]}
     # ---- (B2) simulated histories at real widths
@@ -255,6 +258,7 @@ def main(tier, seed, replay, t0):
                              "st": ev.get("st"), "op": "history"}
                     res.violations.append((small, ["history"], ["g", "bits", "steps"]))
         res.transitions += nsteps
+        res.extra["_extra_distinct"] = res.extra.get("_extra_distinct", 0) + len(hists)
         extra["machine_histories"] = {"histories": len(hists), "steps": nsteps, "widths": sorted({h["bits"] for h in hists})}
         res.shards += len(hists)
     if len(hists) < nsim // 2:
